@@ -175,7 +175,7 @@ mut('c08-convention-struct-unwrapped', ['C08'], CL,
 mut('c08-convention-empty-list', ['C08'], CL,
     [("        if msg.body is None or len(msg.body) == 0:\n            return None", "        if msg.body is None:\n            return None")], ['C08.D7'])
 mut('c08-loss-keeps-table', ['C08', 'C09'], CL,
-    [("            d.errback(reason)\n        self._pendingCalls = {}\n", "            d.errback(reason)\n")], ['C08.D3', 'C09.D3'])
+    [("        pending, self._pendingCalls = self._pendingCalls, {}\n        for d, timeout in pending.values():", "        pending = self._pendingCalls\n        for d, timeout in pending.values():")], ['C08.D3', 'C09.D3'])
 mut('c08-sigcheck-wrong-exception', ['C08'], CL,
     [("                    raise error.RemoteError(\n                        'Unexpected return value signature')",
       "                    raise error.MarshallingError(\n                        'Unexpected return value signature')")], ['C08.D5'])
@@ -500,6 +500,35 @@ mut('c16-foreign-writer', ['C16'], CL,
 mut('c16-intro-none-when-object', ['C16'], IN,
     [("    if obj is None and not matches:\n        return None", "    if not matches:\n        return None")], ['C16.D4'],
     note='a leaf object can no longer be introspected')
+
+# ---- C09 ------------------------------------------------------------------
+twin('c09-prefix-connect-never-fires', ['C09'], ['1984e76', '8483bef'], ['C09.D1'], 'pre-fix twin (the later snapshot fix touches the same lines and is reverted too)')
+twin('c09-prefix-live-iteration', ['C09'], '1984e76', ['C09.D4'], 'pre-fix twin')
+twin('c09-prefix-proxy-unregistered', ['C09'], '7486884', ['C09.D5'], 'pre-fix twin')
+mut('c09-loss-no-timer-cancel', ['C09', 'C08'], CL,
+    [("        for d, timeout in pending.values():\n            if timeout:\n                timeout.cancel()\n            d.errback(reason)",
+      "        for d, timeout in pending.values():\n            d.errback(reason)")], ['C08.D3', 'C09'])
+mut('c09-loss-returns-before-objhandler', ['C09'], CL,
+    [("        if established:\n            self.objHandler.connectionLost(reason)\n", "")], ['C09.D3'])
+mut('c09-no-chain', ['C09'], CL,
+    [("            eplist.pop().connect(f).addErrback(try_next_ep)", "            eplist.pop().connect(f)")], ['C09.D2'])
+mut('c09-order-reversed', ['C09'], CL,
+    [("    eplist.reverse()\n\n", "")], ['C09.D2'])
+mut('c09-resolver-not-idempotent', ['C09'], CL,
+    [("    def _failed(self, err):\n        if not self.d.called:\n            self.d.errback(err)", "    def _failed(self, err):\n        self.d.errback(err)")], ['C09.D1'])
+mut('c09-auth-loss-silent', ['C09'], CL,
+    [("            # lost during authentication: connect()'s Deferred must fail\n            self.factory._failed(reason)\n            return", "            return")], ['C09.D1'])
+mut('c09-hello-errback-dropped', ['C09'], CL,
+    [("        d.addCallbacks(\n            self._cbGotHello,\n            lambda err: self.factory._failed(err),\n        )", "        d.addCallback(self._cbGotHello)")], ['C09.D1'])
+mut('c09-dc-callbacks-skipped', ['C09'], CL,
+    [("        if established:\n            # iterate a copy: a callback may unregister itself\n            for cb in list(self._dcCallbacks):\n                cb(self, reason)\n", "")], ['C09.D3'])
+mut('c09-loss-wrong-reason', ['C09', 'C08'], CL,
+    [("            d.errback(reason)\n\n        if established:", "            d.errback(error.TimeOut('connection lost'))\n\n        if established:")], ['C09.D3', 'C08.D5'])
+mut('c09-empty-list-hangs', ['C09'], CL,
+    [("    if eplist:\n        try_next_ep(None)\n    else:\n        d.errback(\n            ConnectError(\n                string=(\n                    'Failed to connect to any bus address. No valid bus '\n                    'addresses found'\n                )\n            )\n        )\n",
+      "    if eplist:\n        try_next_ep(None)\n")], ['C09.D2'])
+mut('ok-c09-snapshot-tuple', ['C09'], CL,
+    [("            for cb in list(self._dcCallbacks):", "            for cb in tuple(self._dcCallbacks):")], kind='benign')
 
 # benign variants --------------------------------------------------------------
 mut('ok-int16-condexpr', ['C01', 'C02'], M,
